@@ -56,7 +56,8 @@ def param_list(rng, kinds, long_names):
 
 
 FKINDS = ["function", "method", "classmethod", "staticmethod", "async", "generator", "nested_method", "property",
-          "async_method", "async_classmethod", "async_nested_method", "generator_method", "async_staticmethod"]
+          "async_method", "async_classmethod", "async_nested_method", "generator_method", "async_staticmethod",
+          "nested_classmethod", "nested_staticmethod", "nested_property"]
 ASYNC_KINDS = {"async", "async_method", "async_classmethod", "async_nested_method", "async_staticmethod"}
 
 
@@ -86,6 +87,14 @@ def gen_source(rng, specs):
             body = "yield 1" if fk == "generator_method" else "return 1"
             cls_k.append("%s    %s %s(%s):\n        %s\n" % (deco, kw, name, full, body))
             metas.append({"qual": "K." + name, "fkind": fk, "params": ([(recv, "recv", False)] if recv else []) + pm})
+        elif fk in ("nested_classmethod", "nested_staticmethod", "nested_property"):
+            base = fk.replace("nested_", "")
+            recv = {"classmethod": "cls", "property": "self"}.get(base)
+            if base == "property":
+                plist, pm = "", []
+            full = ", ".join(x for x in [recv, plist] if x)
+            cls_outer_inner.append("        @%s\n        def %s(%s):\n            return 1\n" % (base, name, full))
+            metas.append({"qual": "Outer.Inner." + name, "fkind": fk, "params": ([(recv, "recv", False)] if recv else []) + pm})
         else:
             full = ", ".join(x for x in ["self", plist] if x)
             kw = "async def" if fk.startswith("async_") else "def"
@@ -235,7 +244,7 @@ def run(pid, tier, seed):
                 c2 = dict(case, function=m["qual"], kind=m["fkind"])
                 decos = [ast.unparse(d) for d in fn.decorator_list]
                 wantd = {"classmethod": ["classmethod"], "staticmethod": ["staticmethod"], "property": ["property"]}.get(
-                    m["fkind"].replace("async_", ""), [])
+                    m["fkind"].replace("async_", "").replace("nested_", ""), [])
                 if decos != wantd:
                     chk.fail("decorator", dict(c2, got=decos, expected=wantd))
                 if isinstance(fn, ast.AsyncFunctionDef) != (m["fkind"] in ASYNC_KINDS):
